@@ -64,8 +64,10 @@ def run_sync(case: gen.Case, nevents: int, rng: random.Random, on_step: Callable
              events: Optional[List[Dict[str, Any]]] = None, flip_guards=True,
              setup: Optional[Callable] = None, gtable=None, machine_kw=None,
              pre_step: Optional[Callable] = None,
-        gtables: Optional[List[Dict[str, Any]]] = None):
-    """Runs the case on SyncInterpreter; `on_step(run, step)` returning True stops the run."""
+        gtables: Optional[List[Dict[str, Any]]] = None, batch: int = 0):
+    """Runs the case on SyncInterpreter; `on_step(run, step)` returning True stops the run.
+    With `batch`=k (and an explicit event list) events are handed over k at a time through
+    send_events(); the guard table of a batch is that of its first event; one step per batch."""
     rec = Rec()
     gt = dict(gtables[0]) if gtables is not None else (
         dict(gtable) if gtable is not None else rand_gtable(rng, case))
@@ -88,6 +90,25 @@ def run_sync(case: gen.Case, nevents: int, rng: random.Random, on_step: Callable
         _safe_stop_sync(interp)
         return run
     n = len(events) if events is not None else nevents
+    if batch and events is not None:
+        for i in range(0, n, batch):
+            if gtables is not None:
+                gt.clear()
+                gt.update(gtables[i + 1])
+            chunk = events[i:i + batch]
+            run["events"].extend(chunk)
+            mark = len(rec.log)
+            exc = None
+            try:
+                interp.send_events([_mk_event(e) for e in chunk])
+            except Exception as e:
+                exc = e
+            st = Step(i, "send", chunk[-1], config_of(interp), interp.context, interp.status,
+                      interp.output, mark, extra=exc)
+            if on_step(run, st):
+                break
+        _safe_stop_sync(interp)
+        return run
     for i in range(n):
         if gtables is not None:
             gt.clear()
@@ -124,7 +145,7 @@ def run_async(case: gen.Case, nevents: int, rng: random.Random, on_step: Callabl
               events: Optional[List[Dict[str, Any]]] = None, flip_guards=True,
               setup: Optional[Callable] = None, gtable=None, machine_kw=None,
               pre_step: Optional[Callable] = None,
-        gtables: Optional[List[Dict[str, Any]]] = None):
+        gtables: Optional[List[Dict[str, Any]]] = None, batch: int = 0):
     """Runs the case on Interpreter over a virtual-time loop; observes at each drain."""
     rec = Rec()
     gt = dict(gtables[0]) if gtables is not None else (
@@ -157,6 +178,30 @@ def run_async(case: gen.Case, nevents: int, rng: random.Random, on_step: Callabl
             await _safe_stop_async(interp)
             return
         n = len(events) if events is not None else nevents
+        if batch and events is not None:
+            for i in range(0, n, batch):
+                if gtables is not None:
+                    gt.clear()
+                    gt.update(gtables[i + 1])
+                chunk = events[i:i + batch]
+                run["events"].extend(chunk)
+                mark = len(rec.log)
+                exc = None
+                try:
+                    await interp.send_events([_mk_event(e) for e in chunk])
+                    if not await drain(interp):
+                        run["undrained"] += 1
+                except Exception as e:
+                    exc = e
+                st = Step(i, "send", chunk[-1], config_of(interp), interp.context, interp.status,
+                          interp.output, mark, extra=exc)
+                r = on_step(run, st)
+                if asyncio.iscoroutine(r):
+                    r = await r
+                if r:
+                    break
+            await _safe_stop_async(interp)
+            return
         for i in range(n):
             if gtables is not None:
                 gt.clear()
